@@ -139,10 +139,10 @@ def multi_chrom_graph(nchrom, decl="alt"):
     """1-3 chromosomes, each a bubble chain; chr1 has an inversion block (scaffold traversable in both orientations)"""
     specs = [
         (["snp", "inversion", "insertion"], "chr1", 0, "hA#1#c", 5),
-        (["deletion"], "chr2%2Falt", 40, "hB#1#c", 2),  # a contig name with a percent sign (URL-encoded names occur in assemblies)
+        (["deletion"], "CHM13#0#chr2%2Falt", 40, "hB#1#c", 2),  # a PanSN-style contig name ('#') with a percent sign (URL-encoded names)
         (["triallelic", "link"], "HLA-A*01:01", 70, "hC#1#c", 2),  # a reference contig name with colons (GRCh38 alt contigs)
     ][:nchrom]
-    chains = [gen.Chain(b, chrom=c, id_base=i, hap=h, decl=decl, scaffold_len=sl, id_style=("odd" if c.startswith("chr2") else "s")) for b, c, i, h, sl in specs]
+    chains = [gen.Chain(b, chrom=c, id_base=i, hap=h, decl=decl, scaffold_len=sl, id_style=("odd" if "chr2" in c else "s")) for b, c, i, h, sl in specs]
     return gen.merge_graphs([c.g for c in chains]), chains
 
 
